@@ -101,15 +101,27 @@ def gen_case(seed, tier):
 def gen_target_op(rng, target, keys, big_n, bulk):
     k = rng.choice(keys)
     if target == 'deque':
-        name = rng.choice(('append', 'appendleft', 'dpop', 'dpopleft', 'dpeek', 'dlist'))
+        name = rng.choice(('append', 'appendleft', 'dpop', 'dpopleft', 'dpeek', 'dlist', 'dextend', 'dextendleft', 'diadd', 'drotate',
+                           'dreverse', 'dclear', 'dsetitem', 'ddelitem', 'dmaxlen'))
         op = {'op': name}
-        if name.startswith('append'):
+        if name.startswith('append') or name == 'dsetitem':
             op['v'] = c05.uniq_value(rng, 1, 0, big_n)
+        if name in ('dextend', 'dextendleft', 'diadd'):
+            op['vs'] = [c05.uniq_value(rng, 1, b, big_n) for b in range(rng.randint(1, 3))]
+        if name == 'drotate':
+            op['n'] = rng.choice((1, -1, 2))
+        if name in ('dsetitem', 'ddelitem'):
+            op['i'] = rng.choice((0, -1))
+        if name == 'dmaxlen':
+            op['n'] = rng.choice((1, 2))
         return op
     if target == 'index':
-        name = rng.choice(('setitem', 'getitem', 'delitem', 'ipop', 'setdefault', 'popitem', 'contains', 'len', 'items'))
+        name = rng.choice(('setitem', 'getitem', 'delitem', 'ipop', 'setdefault', 'popitem', 'contains', 'len', 'items', 'iupdate', 'iclear'))
         op = {'op': name}
-        if name not in ('popitem', 'len', 'items'):
+        if name == 'iupdate':
+            op['items'] = [[rng.choice(keys), c05.uniq_value(rng, 1, b, big_n)] for b in range(rng.randint(1, 3))]
+            return op
+        if name not in ('popitem', 'len', 'items', 'iclear'):
             op['k'] = k
         if name in ('setitem', 'setdefault'):
             op['v'] = c05.uniq_value(rng, 1, 0, big_n)
